@@ -286,7 +286,17 @@ def plan(tier, seed):
     specs.append(dict(name="strings<=2", kind="strings", length=2))
     for i in range(4 if tier == "thorough" else 2):
         specs.append(dict(name="random-%d" % i, kind="random", n=60000 if tier == "thorough" else 8000))
+    # once more with the library's debug tracing switched on
+    st_ = 7 if tier == "thorough" else 61
+    specs.append(dict(name="tracing-hdr-conf", kind="hdr", type=R.CONF, seg=True, tracing=True, stride=st_))
+    specs.append(dict(name="tracing-hdr-cack", kind="hdr", type=3, tracing=True, stride=st_))
+    specs.append(dict(name="tracing-tables", kind="tab", tracing=True))
+    specs.append(dict(name="tracing-random", kind="random", n=20000 if tier == "thorough" else 3000, tracing=True))
     return specs
+
+
+def seed_offset(ctx, stride):
+    return ctx.seed % stride if stride > 1 else 0
 
 
 def run(spec, ctx):
@@ -295,7 +305,9 @@ def run(spec, ctx):
         t = spec["type"]
         n = nt = 0
         sample = None
-        for f in header_space(t, spec.get("seg")):
+        from itertools import islice
+        stride = spec.get("stride", 1)
+        for f in islice(header_space(t, spec.get("seg")), seed_offset(ctx, stride), None, stride):
             for data in (b"", payload(1 + (f.get("invoke", 0) % 5))):
                 fails = check_header(f, data)
                 n += 1
@@ -306,7 +318,8 @@ def run(spec, ctx):
                 for sig, msg in fails:
                     ctx.fail(dict(k="hdr", f=f, data=data.hex()), sig, msg)
         ctx.bulk(n, nt, "hdr:" + R.NAMES[t], sample)
-        ctx.mark_exhaustive("header cross product of %s%s" % (R.NAMES[t], "" if spec.get("seg") is None else " seg=%d" % spec["seg"]))
+        if stride == 1:
+            ctx.mark_exhaustive("header cross product of %s%s" % (R.NAMES[t], "" if spec.get("seg") is None else " seg=%d" % spec["seg"]))
     elif kind == "tab":
         n = nt = 0
         for x in range(8):
